@@ -451,4 +451,22 @@ pub mod verif_hooks_info_print {
     pub fn bool_on_off(v: bool) -> &'static str {
         super::_bool_on_off(v)
     }
+    /// the text `_print_conedims_by_type` writes for the `k`-th tag in the order used by
+    /// `print_configuration` (Zero, Nonnegative, SecondOrder, Exponential, Power, GenPower, PSDTriangle)
+    pub fn conedims_by_type(cones: &CompositeCone<f64>, k: usize) -> String {
+        let tag = match k {
+            0 => SupportedConeTag::ZeroCone,
+            1 => SupportedConeTag::NonnegativeCone,
+            2 => SupportedConeTag::SecondOrderCone,
+            3 => SupportedConeTag::ExponentialCone,
+            4 => SupportedConeTag::PowerCone,
+            5 => SupportedConeTag::GenPowerCone,
+            #[cfg(feature = "sdp")]
+            6 => SupportedConeTag::PSDTriangleCone,
+            _ => panic!("tag index"),
+        };
+        let mut out = PrintTarget::Buffer(Vec::new());
+        _print_conedims_by_type(&mut out, cones, tag).unwrap();
+        out.get_print_buffer().unwrap()
+    }
 }
